@@ -189,14 +189,45 @@ def suv_method_rules(ref_params=()):
         rs.append(Rule("addr." + p, r'&\s*' + p + r'\b(?!->)', p))
     rs.append(Rule("this.eq", r'\bthis\s*==', 'self=='))
     rs.append(Rule("return.this", r'return\s*\(?\s*\*\s*this\s*\)?\s*;', 'return;'))
-    rs.append(Rule("dealloc", r'(?<![\w>.])deallocate_mem\s*\(\s*\)', 'su_deallocate_mem(self)'))
+    rs.append(Rule("dealloc", r'(?<![\w>.])deallocate_mem\s*\(\s*\)', 'su_deallocate_mem(self,self->components)'))
     rs.append(Rule("alloc_aligned", r'(?<![\w>.])alloc_aligned\s*\(\s*self->dim\s*,\s*self->size\s*,\s*self->components\s*,\s*self->ptr_offset\s*\)',
                    'su_alloc_aligned(self->dim,self->size,&self->components,&self->ptr_offset)'))
     return rs
 
 
+# statement forms with local SU_vector objects (closed table; DESIGN App. E)
+SUV_LOCALS = [
+    Rule("local.default", r'\bSU_vector\s+(\w+)\s*;', r'struct SU_vector \1; su_ctor_default(&\1);'),
+    Rule("local.make_aligned", r'\bSU_vector\s+(\w+)\s*=\s*make_aligned\s*\(\s*(\w+)\s*\)\s*;',
+         r'struct SU_vector \1; su_make_aligned(&\1,\2,true); SQ_PROPAGATE;'),
+    Rule("local.make_aligned2", r'\bSU_vector\s+(\w+)\s*=\s*make_aligned\s*\(\s*(\w+)\s*,\s*(\w+)\s*\)\s*;',
+         r'struct SU_vector \1; su_make_aligned(&\1,\2,\3); SQ_PROPAGATE;'),
+    Rule("alloc_aligned.args", r'(?<![\w>.])alloc_aligned\s*\(\s*([\w.>-]+)\s*,\s*([\w.>-]+)\s*,\s*([\w.>-]+)\s*,\s*([\w.>-]+)\s*\)\s*;',
+         r'su_alloc_aligned(\1,\2,&\3,&\4); SQ_PROPAGATE;'),
+]
+FACTORY = [
+    # VLA `double m[d][d]` (CBMC 6.11 loses the contents of 2-D VLAs): flat array, row-major index i*d+j -- the definition of
+    # C/C++ array indexing for row length d; d<=SQ_MAXD becomes an obligation
+    Rule("factory.vla.decl", r'double\s+m_real\[d\]\[d\]\s*;\s*double\s+m_imag\[d\]\[d\]\s*;',
+         'SQ_ASSERT(d<=SQ_MAXD); double m_real[SQ_MAXD*SQ_MAXD]; double m_imag[SQ_MAXD*SQ_MAXD];'),
+    Rule("factory.vla.index", r'\bm_(real|imag)\[([^\]\[]+)\]\[([^\]\[]+)\]', r'm_\1[(\2)*d+(\3)]'),
+    Rule("factory.vla.row0", r'\bm_(real|imag)\[0\](?!\s*\[)', r'&m_\1[0]'),
+    Rule("factory.array2d", r'\bsq_array_2D\s*\{', '(struct sq_array_2D){'),
+    Rule("factory.cfm.propagate", r'(ComponentsFromMatrices\s*\((?:[^()]|\([^()]*\))*\)\s*;)', r'\1 SQ_PROPAGATE_D(v);'),
+    Rule("factory.return", r'return\s*\(\s*v\s*\)\s*;', '*ret=v; return;', min=1),
+]
+# constructor initialiser list `a(x), b(y)` -> assignments in the order written (checked against declaration order by the caller)
+CTOR_INIT = [
+    Rule("ctor.init", r'\b(dim|size|components|ptr_offset|isinit_d|isinit)\s*\(((?:[^()]|\([^()]*\))*)\)\s*,?', r'self->\1=(\2);'),
+    Rule("nullptr", r'\bnullptr\b', 'NULL'),
+]
+
 RULESETS = {
     "common": COMMON,
+    "suv_method": suv_method_rules(),
+    "suv_locals": SUV_LOCALS,
+    "factory": FACTORY,
+    "ctor_init": CTOR_INIT,
 }
 
 
